@@ -263,15 +263,12 @@ VARIANTS = [
                        "        todo.clear()\n\n"
                        "    @classmethod\n    def to_human_string("}]},
     # ------------------------------------------------------------------ round 4
-    {"name": "R4 coordinate __str__ rounds its components", "file": DT, "expect": "C11.R4",
-     "old": "        return f\"<{repr(tuple(self))[1:-1]}>\"\n",
-     "new": "        return f\"<{repr(tuple(round(c, 7) for c in self))[1:-1]}>\"\n"},
-    {"name": "R4 coordinate __str__ scales its components", "file": DT, "expect": "C11.R4",
-     "old": "        return f\"<{repr(tuple(self))[1:-1]}>\"\n",
-     "new": "        return f\"<{repr(tuple(c * 1.0 for c in self))[1:-1]}>\"\n"},
-    {"name": "P4 coordinate __str__ joins the component reprs", "file": DT, "expect": "silent",
-     "old": "        return f\"<{repr(tuple(self))[1:-1]}>\"\n",
-     "new": "        return \"<\" + \", \".join(repr(c) for c in self) + \">\"\n"},
+    {"name": "R4 coordinate components rounded before they are printed", "file": FMT, "expect": "C11.R4",
+     "old": "\", \".join(_float_repr(x) for x in var_val)", "new": "\", \".join(_float_repr(round(x, 7)) for x in var_val)"},
+    {"name": "R4 coordinate components scaled before they are printed", "file": FMT, "expect": "C11.R4",
+     "old": "\", \".join(_float_repr(x) for x in var_val)", "new": "\", \".join(_float_repr(x * 1.0) for x in var_val)"},
+    {"name": "P4 coordinate components rendered in a list comprehension", "file": FMT, "expect": "silent",
+     "old": "\", \".join(_float_repr(x) for x in var_val)", "new": "\", \".join([_float_repr(comp) for comp in var_val])"},
     {"name": "P2 multi-line printer as a module-level function joining with the marker", "expect": "silent",
      "edits": [{"file": FMT, "old": "class HumanMessageSerializer:\n",
                 "new": "_CONT = \" \\\\\\n\"\n\n\ndef _wrap_literal(val):\n"
